@@ -51,6 +51,24 @@ pub fn iff_ops() -> Vec<(OpK, Vec<Vec<usize>>)> {
     }
     out.push((OpK::Matmul { ta: false, tb: false, bias: false }, vec![vec![3], vec![3]]));
     out.push((OpK::Matmul { ta: false, tb: true, bias: true }, vec![vec![2, 2, 3], vec![2, 3], vec![2]]));
+    // boundary geometries: filter as large as the image, one window, stride larger than the filter, batches
+    for c in crate::spaces::conv_configs(3, 3, 2, &[1], &[1, 2], &[vec![], vec![2]]) {
+        out.push((OpK::Conv { sr: c.sr, sc: c.sc }, vec![c.image.clone(), c.filters.clone()]));
+    }
+    for c in crate::spaces::matmul_configs(2, &[vec![], vec![2], vec![1, 2]], true) {
+        let mut dims = vec![c.a.clone(), c.b.clone()];
+        if let Some(cd) = &c.c {
+            dims.push(cd.clone());
+        }
+        let shapes_ok = {
+            let ts: Vec<T> = dims.iter().map(|d| T::from_f64(d.clone(), &vec![1.0; numel(d)])).collect();
+            let refs: Vec<&T> = ts.iter().collect();
+            apply_ref(&OpK::Matmul { ta: c.ta, tb: c.tb, bias: c.c.is_some() }, &refs).is_ok()
+        };
+        if shapes_ok {
+            out.push((OpK::Matmul { ta: c.ta, tb: c.tb, bias: c.c.is_some() }, dims));
+        }
+    }
     out.push((OpK::Conv { sr: 1, sc: 1 }, vec![vec![1, 3, 3], vec![2, 1, 2, 2]]));
     out.push((OpK::Conv { sr: 2, sc: 1 }, vec![vec![2, 2, 3, 3], vec![1, 2, 2, 2]]));
     out
